@@ -24,7 +24,7 @@ func (i *InitClickhousePlanner) Process(ctx *shared.PlannerContext) (sql.ISelect
 		sql.NewSimpleCol("samples.value", "value"),
 		sql.NewSimpleCol("intDiv(samples.timestamp_ns, 1000000)", "timestamp_ms"),
 	).From(sql.NewSimpleCol(ctx.SamplesTableName, "samples")).AndWhere(
-		sql.Gt(sql.NewRawObject("samples.timestamp_ns"), sql.NewIntVal(ctx.From.UnixNano())),
+		sql.Ge(sql.NewRawObject("samples.timestamp_ns"), sql.NewIntVal(ctx.From.UnixNano())),
 		sql.Le(sql.NewRawObject("samples.timestamp_ns"), sql.NewIntVal(ctx.To.UnixNano())),
 		clickhouse_planner.GetTypes(ctx),
 	).OrderBy(sql.NewOrderBy(sql.NewRawObject("fingerprint"), sql.ORDER_BY_DIRECTION_ASC),
